@@ -183,10 +183,7 @@ static Verdict exec_mul(const Case &c) {
   else if (r == "mzd_mul_mp") ret = vf_mul_mp(oc.M, pa, pb, cutoff, 0, &unsupported);
   else if (r == "mzd_addmul_mp") ret = vf_mul_mp(oc.M, pa, pb, cutoff, 1, &unsupported);
   else throw std::runtime_error("route not handled");
-  if (unsupported) {
-    x.v.label("unsupported-in-this-build");
-    return x.v;
-  }
+  if (unsupported) x.v.label("mp-front-end-absent(sequential-product-used)");
   if (oc.M && ret != oc.M) x.v.fail("returned pointer differs from supplied destination");
   if (!oc.M) fresh.adopt(ret);
   Mat got = read_mzd(ret);
